@@ -48,4 +48,27 @@ META = {
                 "the small schedule space is reported by distinct fingerprints, not claimed exhaustive",
         "technique": "deterministic simulation: seeded cooperative scheduling of real goroutines at injected sync points + porcupine linearizability",
     },
+    "C16": {
+        "text": "Seeded search over goroutine schedules of the real connectedness tracker, lifecycle manager and discovery peer cache, "
+                "all sharing internal/notify: working-tree sources instrumented at check time with scheduling points at every lock, "
+                "unlock, select and channel operation; shadow lock state makes a realised deadlock a scheduler state (no task "
+                "enabled, some parked on locks) rather than a hang. Oracles at final quiescence: no deadlock; a waiter still "
+                "blocked after the updater finished has seen the current state (no missed update); cancelled waits returned; "
+                "returned peer sets linearizable against the connectedness-map model (porcupine).",
+        "design_ref": "section 4; section 5, C16",
+        "note": "the static lock-order clause of the quantifier is covered dynamically (realised deadlocks only); the GroupDeviceStatus "
+                "stream and service wiring (api_group.go, service.go) are not driven: the tracker API they call is",
+        "technique": "deterministic simulation: seeded cooperative scheduling of real goroutines at injected sync points, deadlock/missed-update oracles + porcupine",
+    },
+    "C09": {
+        "text": "Seeded search over goroutine schedules of concurrent SealEnvelope callers on the real secret store: pkg/secretstore is "
+                "instrumented at every lock/unlock and every SimDisk read/write is a scheduling point; 2-4 sender tasks x 1-4 messages "
+                "on 1-2 groups of all three types with a concurrent announcement reader. Oracles: returned counters form the gap-free "
+                "sequence after the warm-up counter, every envelope opens to its payload at a registered receiver (so no key/nonce "
+                "pair is reused), chain-key writes observed at the disk seam never decrease.",
+        "design_ref": "section 5, C09",
+        "note": "replaces the 'real parallelism on 16 cores' of the quantifier by controlled interleavings at synchronisation points and "
+                "datastore operations; code between two points is atomic",
+        "technique": "deterministic simulation: seeded cooperative scheduling at injected lock points and simulated-disk operations",
+    },
 }
